@@ -1,7 +1,7 @@
 (* C13: define-then-delete is the identity; feature dependencies stay consistent
    (statements only; proofs in DepsProofs.v / DepsTables.v). *)
 From Coq Require Import ZArith List Bool Arith Lia.
-From CV Require Import C13.DepsModel C13.InvModel C13.DepsProofs C13.DepsTables C13.ModuleModel C13.ModuleProofs C13.DepsInv C13.ModuleInv C13.ModuleRooted C13.EnableExcl C13.EnableWitness C13.UserFeatures Gen.GenDeps.
+From CV Require Import Base.Num C13.DepsModel C13.InvModel C13.DepsProofs C13.DepsTables C13.ModuleModel C13.ModuleProofs C13.DepsInv C13.ModuleInv C13.ModuleRooted C13.EnableExcl C13.EnableWitness C13.UserFeatures C13.CrossC08 Gen.GenDeps.
 Import ListNotations.
 
 (* ---- table theorems, re-checked on every run against the tables dumped from the binary ---- *)
@@ -533,3 +533,11 @@ Proof.
   split; [vm_compute; reflexivity|]. split; [vm_compute; reflexivity|]. split; [vm_compute; reflexivity|]. split; [vm_compute; reflexivity|].
   eexists. split; [vm_compute; reflexivity|]. split; vm_compute; reflexivity.
 Qed.
+
+(* ==== cross-check with the C08 model (CrossC08.v): its small dependency engine (active / awake / apply_force of a variable:
+   the references taken and dropped when biases and variables with timeStepFactor > 1 go to sleep and wake up) agrees with
+   the general engine instantiated with the regenerated tables, on every flag combination and every count in -1 .. 3 *)
+Theorem GenDeps_C08_engine_agrees : forall (T : Type) (O : NumOps T),
+  cross_check O gen_tables = true /\ cross_check O gen_tables_lagged = true.
+Proof. intros T O. exact (c08_engine_agrees O). Qed.
+Print Assumptions GenDeps_C08_engine_agrees.
